@@ -393,6 +393,58 @@ def check_explicit_constructed_defaults(rep):
                                  'result' % (dn, name), dict(case, codec=dn))
 
 
+def check_substrate_fun_gets_fresh_object(rep):
+    """decoding with a `substrateFun` hook (a lazy decoder that keeps the raw contents and fills the container it is handed):
+    what the hook receives for a constructed guiding type is a fresh object each time - never the guiding type itself,
+    never the object of another call - so filling it leaves the guiding type and earlier results alone"""
+    from pyasn1.type import namedtype
+    from pyasn1.codec.ber import decoder as bdec
+    from pyasn1.codec.der import decoder as ddec
+    ints_t = univ.SequenceOf(componentType=univ.Integer())
+    set_t = univ.SetOf(componentType=univ.Integer())
+    rec_t = univ.Sequence(componentType=namedtype.NamedTypes(namedtype.NamedType('a', univ.Integer()), namedtype.OptionalNamedType('b', univ.Integer())))
+    cases = [('seqof', ints_t, '3006020101020102', '30800201070000'), ('setof', set_t, '3106020101020102', '31800201070000'),
+             ('seq', rec_t, '3006020101020102', '30800201070000')]
+    for name, spec, h_def, h_indef in cases:
+        for dn, dec in (('ber', bdec), ('der', ddec)):
+            handed = []
+
+            def hook(asn1Object, substrate, length, options):
+                handed.append(asn1Object)
+                raw = substrate.read() if length == -1 else substrate.read(length)
+                # the lazy decoder fills the container it was given
+                vals = [b for b in raw if b not in (0, 1, 2)] or [9]
+                try:
+                    if isinstance(asn1Object, (univ.SequenceOf, univ.SetOf)):
+                        asn1Object.extend(vals[:2])
+                    else:
+                        asn1Object['a'] = vals[0]
+                except Exception:  # noqa
+                    pass
+                yield asn1Object
+            before = type_shape(spec)
+            results = []
+            for hx in ([h_def, h_def, h_indef] if dn == 'ber' else [h_def, h_def]):
+                rep.evaluations += 1
+                rep.count('substrate-fun-calls')
+                case = {'kind': 'substrate-fun', 'type': name, 'codec': dn, 'bytes': hx}
+                try:
+                    obj, rest = dec.decode(bytes.fromhex(hx), asn1Spec=spec, substrateFun=hook)
+                except Exception as e:  # noqa
+                    rep.fail('substrate-fun-' + codec.classify(e), '%s: %r' % (name, e), case)
+                    break
+                if any(h is spec for h in handed):
+                    rep.fail('substrate-fun-handed-the-spec', 'the hook was handed the guiding type object itself (%s, %s decoder)' % (name, dn), case)
+                    break
+                if len(set(map(id, handed))) != len(handed):
+                    rep.fail('substrate-fun-handed-same-object-twice', 'two calls handed the hook the same object (%s, %s decoder)' % (name, dn), case)
+                    break
+                results.append(obj)
+            if type_shape(spec) != before:
+                rep.fail('decode-mutates-spec', 'filling the container a substrateFun hook was handed changed the guiding type (%s, %s decoder)' % (name, dn),
+                         {'kind': 'substrate-fun', 'type': name, 'codec': dn})
+
+
 def check_mutable_inputs(rep):
     """value objects built from a caller's mutable buffer (bytearray) do not keep it: after the buffer is refilled or changed,
     every object built from it - by the constructor, clone(), the native decoder (scalars and record members), the BER
@@ -710,6 +762,8 @@ def run(rep, tier, seed):
     cross_call_forms(rep)
     check_schemaless_results_independent(rep)
     check_mutable_inputs(rep)
+    rep.case('substrateFun hooks', nontrivial=True)
+    check_substrate_fun_gets_fresh_object(rep)
     rep.case('explicit constructed defaults', nontrivial=True)
     check_explicit_constructed_defaults(rep)
     for i in range(60 if tier == 'quick' else 3000):
